@@ -11,10 +11,10 @@ package simsync
 import (
 	"fmt"
 	"runtime"
-	"sort"
 	realsync "sync"
 	"testing/synctest"
 	"time"
+	"unsafe"
 )
 
 // Stream identifies the consumer of a choice; each has its own PRNG so that a change in
@@ -45,6 +45,7 @@ const (
 	tsDone
 )
 
+//go:norace
 func (s TaskState) String() string {
 	return [...]string{"new", "ready", "running", "blocked-sim", "blocked-native", "done"}[s]
 }
@@ -62,6 +63,7 @@ type Task struct {
 	daemon  bool
 }
 
+//go:norace
 func (t *Task) String() string { return fmt.Sprintf("t%d(%s)", t.ID, t.Name) }
 
 // Strategy kinds.
@@ -131,6 +133,7 @@ type poisonT struct{}
 var poison = poisonT{}
 
 // IsPoison reports whether a recovered panic value is the scheduler's teardown sentinel.
+//go:norace
 func IsPoison(v any) bool { _, ok := v.(poisonT); return ok }
 
 type Sched struct {
@@ -154,6 +157,8 @@ type Sched struct {
 	stalled  int
 	inStable bool
 	prefer   *Task
+	mainFn   func()
+	endTok   int
 	stableSteps int
 }
 
@@ -167,6 +172,7 @@ var S *Sched
 
 type splitmix struct{ x uint64 }
 
+//go:norace
 func (s *splitmix) next() uint64 {
 	s.x += 0x9e3779b97f4a7c15
 	z := s.x
@@ -175,6 +181,7 @@ func (s *splitmix) next() uint64 {
 	return z ^ (z >> 31)
 }
 
+//go:norace
 func (s *splitmix) intn(n int) int {
 	if n <= 1 {
 		return 0
@@ -183,6 +190,7 @@ func (s *splitmix) intn(n int) int {
 }
 
 // Mix derives a sub-seed.
+//go:norace
 func Mix(seed uint64, k uint64) uint64 {
 	s := splitmix{seed ^ (k * 0xd6e8feb86659fd93)}
 	s.next()
@@ -192,6 +200,7 @@ func Mix(seed uint64, k uint64) uint64 {
 // Execute runs main as task 0 under the scheduler and returns when main has returned (or
 // the run was aborted) and all tasks have been torn down as far as possible. It must be
 // called from the root goroutine of a synctest bubble.
+//go:norace
 func Execute(cfg Config, main func()) *Outcome {
 	s := &Sched{cfg: cfg, notify: make(chan struct{}, 1), start: time.Now()}
 	for i := range s.rng {
@@ -216,14 +225,13 @@ func Execute(cfg Config, main func()) *Outcome {
 	S = s
 	defer func() { S = nil }()
 
+	s.mainFn = main
+	s.spawn("main", 0, true, s.runMain)
 	raceDisable()
-	s.spawn("main", 0, true, func() {
-		defer func() { s.mainDone = true }()
-		main()
-	})
 	s.loop()
 	s.teardown()
 	raceEnable()
+	raceAcquire(unsafe.Pointer(&s.endTok))
 	s.out.Steps = s.steps
 	s.out.Tape = s.tape
 	s.out.FakeElapsed = time.Since(s.start)
@@ -231,6 +239,7 @@ func Execute(cfg Config, main func()) *Outcome {
 	return &s.out
 }
 
+//go:norace
 func (s *Sched) kick() {
 	select {
 	case s.notify <- struct{}{}:
@@ -239,7 +248,9 @@ func (s *Sched) kick() {
 }
 
 // spawn creates a task in state ready; the goroutine starts parked.
+//go:norace
 func (s *Sched) spawn(name string, site int, harness bool, f func()) *Task {
+	raceDisable()
 	s.mu.Lock()
 	t := &Task{ID: len(s.tasks), Name: name, Site: site, state: tsReady, wake: make(chan struct{}, 1), Harness: harness}
 	if s.cfg.Strategy.Kind == StratPCT {
@@ -249,43 +260,69 @@ func (s *Sched) spawn(name string, site int, harness bool, f func()) *Task {
 	s.tasks = append(s.tasks, t)
 	s.ready = append(s.ready, t)
 	s.mu.Unlock()
-	go func() {
-		if s.cfg.Paranoid {
-			s.mu.Lock()
-			s.goids = append(s.goids, goidEntry{goid(), t})
-			s.mu.Unlock()
-		}
-		raceDisable() // the controller hand-off must not create a happens-before edge
-		<-t.wake
-		raceEnable()
-		defer func() {
-			r := recover()
-			raceDisable()
-			if r != nil && !IsPoison(r) {
-				buf := make([]byte, 16384)
-				n := runtime.Stack(buf, false)
-				s.mu.Lock()
-				s.out.Panics = append(s.out.Panics, PanicInfo{Task: t.String(), Value: fmt.Sprint(r), Stack: string(buf[:n]), Step: s.steps})
-				s.mu.Unlock()
-			}
-			s.mu.Lock()
-			t.state = tsDone
-			if s.cur == t {
-				s.cur = nil
-			}
-			s.mu.Unlock()
-			s.kick()
-		}()
-		if s.poisoned {
-			panic(poison)
-		}
-		f()
-	}()
+	raceEnable()
+	go s.taskMain(t, f)
 	return t
+}
+
+//go:norace
+func (s *Sched) runMain() {
+	defer s.setMainDone()
+	s.mainFn()
+}
+
+//go:norace
+func (s *Sched) setMainDone() { s.mainDone = true }
+
+// taskMain is the body of every task goroutine.
+//
+//go:norace
+func (s *Sched) taskMain(t *Task, f func()) {
+	if s.cfg.Paranoid {
+		raceDisable()
+		s.mu.Lock()
+		s.goids = append(s.goids, goidEntry{goid(), t})
+		s.mu.Unlock()
+		raceEnable()
+	}
+	raceDisable() // the controller hand-off must not create a happens-before edge
+	<-t.wake
+	raceEnable()
+	defer s.taskExit(t)
+	if s.poisoned {
+		panic(poison)
+	}
+	f()
+}
+
+//go:norace
+func (s *Sched) taskExit(t *Task) {
+	r := recover()
+	var pi *PanicInfo
+	if r != nil && !IsPoison(r) {
+		buf := make([]byte, 16384)
+		n := runtime.Stack(buf, false)
+		pi = &PanicInfo{Task: t.String(), Value: fmt.Sprint(r), Stack: string(buf[:n]), Step: s.steps}
+	}
+	// everything this task did happens-before the code that runs after the simulation
+	raceReleaseMerge(unsafe.Pointer(&s.endTok))
+	raceDisable()
+	s.mu.Lock()
+	if pi != nil {
+		s.out.Panics = append(s.out.Panics, *pi)
+	}
+	t.state = tsDone
+	if s.cur == t {
+		s.cur = nil
+	}
+	s.mu.Unlock()
+	s.kick()
+	// race detection stays off for the rest of this goroutine's life (it only returns)
 }
 
 // current returns the task that is executing the calling code. Only one task runs at a
 // time, so this is the scheduler's cur; with Paranoid the goroutine id is verified.
+//go:norace
 func (s *Sched) current() *Task {
 	if s.poisoned {
 		panic(poison)
@@ -313,20 +350,24 @@ func (s *Sched) current() *Task {
 	return t
 }
 
+//go:norace
 func (s *Sched) trouble(msg string) {
+	buf := make([]byte, 8192)
+	n := runtime.Stack(buf, false)
+	raceDisable()
 	s.mu.Lock()
 	if s.out.Trouble == "" {
-		buf := make([]byte, 8192)
-		n := runtime.Stack(buf, false)
 		s.out.Trouble = msg + "\n" + string(buf[:n])
 	}
 	s.poisoned = true
 	s.mu.Unlock()
 	s.kick()
+	raceEnable()
 }
 
 // park hands control back to the controller and waits to be released.
 // The caller must already have put t into its new state.
+//go:norace
 func (s *Sched) park(t *Task) {
 	raceDisable()
 	s.kick()
@@ -338,6 +379,7 @@ func (s *Sched) park(t *Task) {
 }
 
 // yield makes the running task ready and parks it: a scheduling point.
+//go:norace
 func (s *Sched) yield(t *Task, site int) {
 	raceDisable()
 	s.mu.Lock()
@@ -351,6 +393,7 @@ func (s *Sched) yield(t *Task, site int) {
 }
 
 // blockSim parks the running task without making it ready; somebody must call makeReady.
+//go:norace
 func (s *Sched) blockSim(t *Task, what string) {
 	raceDisable()
 	s.mu.Lock()
@@ -363,6 +406,7 @@ func (s *Sched) blockSim(t *Task, what string) {
 }
 
 // makeReady moves a blocked-sim task to the ready set (called by the running task).
+//go:norace
 func (s *Sched) makeReady(t *Task) {
 	raceDisable()
 	s.mu.Lock()
@@ -377,6 +421,7 @@ func (s *Sched) makeReady(t *Task) {
 
 // beginNative marks the running task as about to block in a native operation (channel,
 // timer). The controller regains control as soon as the goroutine is durably blocked.
+//go:norace
 func (s *Sched) beginNative(t *Task, site int) {
 	raceDisable()
 	s.mu.Lock()
@@ -390,6 +435,7 @@ func (s *Sched) beginNative(t *Task, site int) {
 
 // endNative is the wake-yield: the goroutine has been woken by the runtime (sender,
 // close, timer); it becomes ready and parks until the controller releases it.
+//go:norace
 func (s *Sched) endNative(t *Task) {
 	raceDisable()
 	s.mu.Lock()
@@ -400,6 +446,7 @@ func (s *Sched) endNative(t *Task) {
 	s.park(t)
 }
 
+//go:norace
 func (s *Sched) choose(st Stream, n int) int {
 	if n <= 1 {
 		return 0
@@ -424,6 +471,7 @@ func (s *Sched) choose(st Stream, n int) int {
 }
 
 // pick chooses the index (into the id-sorted ready list) of the task to release.
+//go:norace
 func (s *Sched) pick() int {
 	n := len(s.ready)
 	if n == 1 {
@@ -475,6 +523,7 @@ func (s *Sched) pick() int {
 	return v
 }
 
+//go:norace
 func (s *Sched) loop() {
 	for {
 		synctest.Wait()
@@ -509,10 +558,14 @@ func (s *Sched) loop() {
 			case <-s.notify:
 			default:
 			}
+			raceEnable() // library code below must see its own synchronisation
 			tm := time.NewTimer(s.cfg.Horizon)
+			raceDisable()
 			select {
 			case <-s.notify:
+				raceEnable()
 				tm.Stop()
+				raceDisable()
 			case <-tm.C:
 				s.out.HorizonHit = true
 				s.describeBlocked()
@@ -526,7 +579,11 @@ func (s *Sched) loop() {
 			s.describeBlocked()
 			return
 		}
-		sort.Slice(s.ready, func(i, j int) bool { return s.ready[i].ID < s.ready[j].ID })
+		for i := 1; i < len(s.ready); i++ {
+			for j := i; j > 0 && s.ready[j].ID < s.ready[j-1].ID; j-- {
+				s.ready[j], s.ready[j-1] = s.ready[j-1], s.ready[j]
+			}
+		}
 		// drain stale kicks so that a later block on notify is genuine
 		select {
 		case <-s.notify:
@@ -546,17 +603,9 @@ func (s *Sched) loop() {
 			s.out.Stalls++
 			s.stalled++
 			s.mu.Unlock()
-			time.AfterFunc(d, func() {
-				s.mu.Lock()
-				if t.state == tsBlockedSim && t.waitOn == "stalled" {
-					t.state = tsReady
-					t.waitOn = ""
-					s.ready = append(s.ready, t)
-				}
-				s.stalled--
-				s.mu.Unlock()
-				s.kick()
-			})
+			raceEnable()
+			time.AfterFunc(d, func() { s.unstall(t) })
+			raceDisable()
 			continue
 		}
 		s.ready = append(s.ready[:i], s.ready[i+1:]...)
@@ -573,7 +622,25 @@ func (s *Sched) loop() {
 	}
 }
 
+//go:norace
+func (s *Sched) unstall(t *Task) {
+	raceDisable()
+	s.mu.Lock()
+	if t.state == tsBlockedSim && t.waitOn == "stalled" {
+		t.state = tsReady
+		t.waitOn = ""
+		s.ready = append(s.ready, t)
+	}
+	s.stalled--
+	s.mu.Unlock()
+	s.kick()
+	raceEnable()
+}
+
+//go:norace
 func (s *Sched) describeBlocked() {
+	raceEnable() // fmt uses sync.Pool: it must see its own synchronisation
+	defer raceDisable()
 	s.mu.Lock()
 	defer s.mu.Unlock()
 	for _, t := range s.tasks {
@@ -584,6 +651,7 @@ func (s *Sched) describeBlocked() {
 }
 
 // teardown poisons the scheduler and unwinds the parked tasks one at a time.
+//go:norace
 func (s *Sched) teardown() {
 	s.mu.Lock()
 	s.poisoned = true
@@ -622,6 +690,7 @@ func (s *Sched) teardown() {
 // ---- public helpers for harness and instrumented code ----
 
 // Go starts f as a new task. The child starts parked; the parent continues.
+//go:norace
 func Go(site int, f func()) {
 	s := S
 	if s == nil {
@@ -634,6 +703,7 @@ func Go(site int, f func()) {
 }
 
 // GoNamed starts a harness task.
+//go:norace
 func GoNamed(name string, f func()) *Task {
 	s := S
 	s.current()
@@ -641,6 +711,7 @@ func GoNamed(name string, f func()) *Task {
 }
 
 // Yield is a scheduling point.
+//go:norace
 func Yield(site int) {
 	s := S
 	if s == nil {
@@ -650,6 +721,7 @@ func Yield(site int) {
 }
 
 // Sleep blocks the calling task for d of fake time.
+//go:norace
 func Sleep(site int, d time.Duration) {
 	s := S
 	if s == nil {
@@ -663,6 +735,7 @@ func Sleep(site int, d time.Duration) {
 }
 
 // Choose draws a recorded choice in [0,n) from the given stream.
+//go:norace
 func Choose(st Stream, n int) int {
 	s := S
 	if s == nil {
@@ -672,6 +745,7 @@ func Choose(st Stream, n int) int {
 }
 
 // Step is the number of scheduling steps taken so far.
+//go:norace
 func Step() int {
 	if S == nil {
 		return 0
@@ -680,6 +754,7 @@ func Step() int {
 }
 
 // Elapsed is the fake time since the run started.
+//go:norace
 func Elapsed() time.Duration {
 	if S == nil {
 		return 0
@@ -688,6 +763,7 @@ func Elapsed() time.Duration {
 }
 
 // CurrentTask returns the running task (nil outside a run).
+//go:norace
 func CurrentTask() *Task {
 	if S == nil {
 		return nil
@@ -696,9 +772,11 @@ func CurrentTask() *Task {
 }
 
 // Active reports whether a simulated run is in progress.
+//go:norace
 func Active() bool { return S != nil && !S.poisoned }
 
 // Abort records harness trouble and ends the run.
+//go:norace
 func Abort(msg string) {
 	if S != nil {
 		S.trouble(msg)
@@ -706,6 +784,7 @@ func Abort(msg string) {
 	}
 }
 
+//go:norace
 func goid() uint64 {
 	var buf [64]byte
 	n := runtime.Stack(buf[:], false)
@@ -722,6 +801,7 @@ func goid() uint64 {
 }
 
 // OtherSteps is the number of scheduling steps taken by tasks other than t.
+//go:norace
 func OtherSteps(t *Task) int {
 	if S == nil || t == nil {
 		return 0
@@ -731,6 +811,7 @@ func OtherSteps(t *Task) int {
 
 // Prefer makes the controller release t whenever it is ready (nil: no preference). Used
 // by injection-point sweeps so that the injected request lands exactly where intended.
+//go:norace
 func Prefer(t *Task) {
 	if S != nil {
 		S.prefer = t
